@@ -183,7 +183,7 @@ ListenPlainByRequest     == Server /\ ~StartFails /\ ~c.tlsRequested
 ListenRefusedNoContext   == Server /\ ~StartFails /\ NoContext /\ ~Dev_PlaintextFallbackWhenTlsNotEnabled
                             /\ Decide(Outc(FALSE, FALSE, FALSE, 0, "ListenRefusedNoContext"))
 Dev_ListenPlainFallback  == Server /\ ~StartFails /\ NoContext /\ Dev_PlaintextFallbackWhenTlsNotEnabled
-                            /\ Decide(Outc(TRUE, c.peerKind = "Plaintext", TRUE, 0, "Dev_ListenPlainFallback"))
+                            /\ Decide(Outc(TRUE, TRUE, TRUE, 0, "Dev_ListenPlainFallback"))
 AcceptNonTlsPeer         == Server /\ ~StartFails /\ TlsAttempt /\ c.peerKind # "TLS"
                             /\ Decide(Outc(TRUE, FALSE, FALSE, 0, "AcceptNonTlsPeer"))
 AcceptVersionRefused     == Server /\ ~StartFails /\ TlsAttempt /\ c.peerKind = "TLS" /\ ~VersionOk
